@@ -21,15 +21,16 @@ func VerifNewQueue(dir string, maxSize int64, maxWrites int) (*VerifQueue, error
 	return &VerifQueue{q}, nil
 }
 
-func (v *VerifQueue) Open() error                       { return v.q.Open() }
-func (v *VerifQueue) Close() error                      { return v.q.Close() }
-func (v *VerifQueue) Append(b []byte) error             { return v.q.Append(b) }
-func (v *VerifQueue) Current() ([]byte, error)          { return v.q.Current() }
-func (v *VerifQueue) Advance() error                    { return v.q.Advance() }
-func (v *VerifQueue) Truncate() error                   { return v.q.Truncate() }
-func (v *VerifQueue) Empty() bool                       { return v.q.Empty() }
-func (v *VerifQueue) SetMaxSegmentSize(n int64) error   { return v.q.SetMaxSegmentSize(n) }
-func (v *VerifQueue) PurgeOlderThan(t time.Time) error  { return v.q.PurgeOlderThan(t) }
+func (v *VerifQueue) Open() error                      { return v.q.Open() }
+func (v *VerifQueue) Close() error                     { return v.q.Close() }
+func (v *VerifQueue) Append(b []byte) error            { return v.q.Append(b) }
+func (v *VerifQueue) Current() ([]byte, error)         { return v.q.Current() }
+func (v *VerifQueue) Advance() error                   { return v.q.Advance() }
+func (v *VerifQueue) Truncate() error                  { return v.q.Truncate() }
+func (v *VerifQueue) SkipDrainedHead() error           { return v.q.skipDrainedHead() }
+func (v *VerifQueue) Empty() bool                      { return v.q.Empty() }
+func (v *VerifQueue) SetMaxSegmentSize(n int64) error  { return v.q.SetMaxSegmentSize(n) }
+func (v *VerifQueue) PurgeOlderThan(t time.Time) error { return v.q.PurgeOlderThan(t) }
 func (v *VerifQueue) DiskUsage() int64 {
 	v.q.mu.RLock()
 	defer v.q.mu.RUnlock()
@@ -73,8 +74,10 @@ func (v *VerifQueue) HoldTokens(n int) func() {
 	}
 }
 
-func VerifMarshalWrite(shardID uint64, points []models.Point) []byte { return marshalWrite(shardID, points) }
-func VerifUnmarshalWrite(b []byte) (uint64, [][]byte, error)          { return unmarshalWrite(b) }
+func VerifMarshalWrite(shardID uint64, points []models.Point) []byte {
+	return marshalWrite(shardID, points)
+}
+func VerifUnmarshalWrite(b []byte) (uint64, [][]byte, error) { return unmarshalWrite(b) }
 
 const VerifDefaultSegmentSize = defaultSegmentSize
 const VerifFooterSize = footerSize
